@@ -131,6 +131,28 @@ def run(ctx):
             obs.write(src, ("const char *v = %s;\nint   after  =  1 ;\nvoid f(void) { g(%s , 2); }\n" % (lit, lit)).encode("utf-8"))
             for cn, ct in spx:
                 jobs.append(("lit|%s|%d|%s" % (lang, li, cn), src, None, ct, lang))
+    # a comment at EVERY token boundary of the token-dense programs (outside directives): K files per program and comment kind,
+    # file k carries comments at the boundaries b with b % K == k
+    from .c19 import SPACEY
+    bdir = ctx.work.sub("bound")
+    K = 8 if quick else 3
+    for lang, text in SPACEY.items():
+        items = [it for it in lex.lex(text, lang) if it[0] == "tok"]
+        for kind in ("c", "cpp"):
+            for k in range(K):
+                out, pos, n = [], 0, 0
+                for bi in range(len(items) - 1):
+                    a_, b_ = items[bi], items[bi + 1]
+                    if a_[5] or b_[5] or bi % K != k:
+                        continue
+                    out.append(text[pos:a_[3]])
+                    out.append(" /* b%d */ " % bi if kind == "c" else " // b%d\n" % bi)
+                    pos = a_[3]
+                    n += 1
+                out.append(text[pos:])
+                src = os.path.join(bdir, "b_%s_%s_%d%s" % (lang, kind, k, EXT[lang]))
+                obs.write(src, "".join(out).encode("utf-8"))
+                jobs.append(("bound|%s|%s|%d" % (lang, kind, k), src, None, "" if k % 2 == 0 else cfggen.random_ws_config(ctx.rng, unc), lang))
     res = c02.observe_jobs(ctx, jobs)
     events = []
     for evs, info, j in res:
